@@ -157,10 +157,18 @@ def run(tier, seed):
         b["id"] = len(holds)
         kc.add_timing(b)
         holds.append(b)
+    # ... and generated behaviours (all operations on the two-parent
+    # hierarchy) in which tasks are held across the following one or two
+    # API operations
+    for b in kc.generate(chk, ["held"], 10 if tier == "quick" else 120, 30,
+                         seed):
+        b["id"] = len(holds)
+        holds.append(b)
     ktrace, krej = kc.run_and_validate(chk, PID, holds, "hold")
     held = sum(1 for e in ktrace if e.get("held"))
     released = sum(1 for e in ktrace if e.get("ev") == "Release")
-    if (held < len(holds) or released < len(holds)) and not chk.violations:
+    if (held < len(kc.HOLD_DIRECTED) or released < len(kc.HOLD_DIRECTED)) \
+            and not chk.violations:
         raise vlib.ToolError("the held-task behaviours did not hold a task "
                              f"each ({held} held, {released} released)")
     chk.cov["held_task_behaviours"] = len(holds)
